@@ -1,3 +1,4 @@
+pub mod bld;
 pub mod gen;
 pub mod jv;
 pub mod proj;
